@@ -15,6 +15,7 @@ pub mod c13;
 pub mod c15;
 pub mod c16;
 pub mod c17;
+pub mod c18;
 pub mod c20;
 pub mod selftest;
 
@@ -30,5 +31,5 @@ pub const STUB: &[&str] = &[
 ];
 
 pub fn all() -> Vec<PropSpec> {
-    vec![c01::spec(), c02::spec(), c03::spec(), c04::spec(), c05::spec(), c07::spec(), c08::spec(), c09::spec(), c12::spec(), c13::spec(), c15::spec(), c16::spec(), c17::spec(), c20::spec()]
+    vec![c01::spec(), c02::spec(), c03::spec(), c04::spec(), c05::spec(), c07::spec(), c08::spec(), c09::spec(), c12::spec(), c13::spec(), c15::spec(), c16::spec(), c17::spec(), c18::spec(), c20::spec()]
 }
